@@ -7,12 +7,12 @@ MANIFEST = dict(
     category="other",
     text="Internal edge (delta_depth 1..3, every parent cell symbolic): length 4*2^d-4, all descendants, all on the border, closed walk with adjacent consecutive cells from the south corner through the east, north and west corners, no duplicates; sorted variant is its strictly increasing permutation; internal_corner / internal_edge_part / append_ variants return the matching cells. External edge, modular: (1) the direction under which each neighbour sees the cell -- the rule used by external_edge_generic/_struct with the tables direction_from_neighbour / edge_cell_direction_from_neighbour / direction_in_base_cell_border -- names exactly the shared edge/vertex (integer vertex-sharing oracle, all cells of depths 0..3 x 8 directions); (2) append_sorted_internal_edge_element appends exactly that corner/side of the neighbour. Bounded in delta_depth (<=3) and depth (<=3 for the direction rule).",
     note="The loop of external_edge_generic/_struct itself (Vec collect/sort of the neighbour map) is not verified end to end: symbolic execution did not finish; the selection rule is replicated in the harness from the same real table functions. Uses C04's neighbour contract and oracle assumptions.",
-    technique="Kani bounded harnesses (CBMC) on the real edge functions and direction tables against the integer vertex-sharing oracle",
+    technique="Verus (z3, bit-vector) contracts on the extracted mask / corner helpers for every delta_depth; Kani bounded harnesses (CBMC) on the real edge functions and direction tables against the integer vertex-sharing oracle",
 )
-EXPLANATION = "Each unit is complete over all parent cells for its delta_depth / depth; delta_depth and depth are the bounds."
+EXPLANATION = "Unit edge_corners_verus is unbounded (all delta_depth, all parent cells) for the corner and mask helpers. Each Kani unit is complete over all parent cells for its delta_depth / depth; delta_depth and depth are the bounds."
 ASSUMPTIONS = ["external_edge_generic/external_edge_struct composition (iteration over the neighbour map, sorted variant's sort) not verified end to end",
                "gluing rule of verif_spec::canon as in C04", "delta_depth <= 3; direction rule at depths 0..3 (quick: 0..2)"]
-TRUSTED_BASE = ["Kani 0.68 / CBMC 6.11", "harness/verif_spec.rs integer geometry", "(stub_verified) Layer::build_hash_from_parts contract (proved in C04)"]
+TRUSTED_BASE = ["Verus 0.2026.09.13 + z3 bit-vector mode (unit edge_corners_verus)", "Kani 0.68 / CBMC 6.11", "harness/verif_spec.rs integer geometry", "(stub_verified) Layer::build_hash_from_parts contract (proved in C04)"]
 def units():
     IE = ["Layer::internal_edge", "Layer::internal_edge_sorted", "internal_corner*", "x_mask", "get_zoc/i02h/oj2h"]
     us = []
@@ -26,4 +26,12 @@ def units():
     for d in (0, 1, 2, 3):
         us.append(Unit("edge_dir_d%02d" % d, P + "edge_dir_d%02d" % d, ["direction_from_neighbour", "edge_cell_direction_from_neighbour", "npc_/eqr_/spc_ direction tables", "Layer::direction_in_base_cell_border", "MainWind::opposite", "Layer::neighbour_from_parts"],
                        "depth %d, all cells x 8 directions: the direction under which the neighbour sees the cell names exactly the shared edge / vertex" % d, tiers=both if d < 3 else th, timeout=900, level="B", bound="depth %d" % d))
+    VF = ["x_mask", "y_mask", "xy_mask", "internal_corner_south", "internal_corner_east", "internal_corner_west", "internal_corner_north"]
+    us.append(Unit("edge_corners_verus", "contracts/verus_edge.py", VF,
+                   "EVERY delta_depth 1..=29 and every parent cell with depth + delta_depth <= 29 (no bound): each corner helper returns a descendant of the parent (result >> 2*dd == parent) whose "
+                   "sub-cell index is: south 0; north 4^dd - 1; east = all even bits below 2*dd and no odd bit (i maximal, j = 0); west = all odd bits and no even bit; the masks x/y/xy_mask(d), 1 <= d <= 32, "
+                   "are exactly the even / odd / all bits below 2*d; no shift or subtraction overflows",
+                   engine="verus", level="P", timeout=600, extra=dict(spec="verus_edge", rlimit=60), bound="none (all delta_depth, all parent cells)"))
+    us.append(Unit("edge_corners_verus_canary", "contracts/verus_edge.py", VF, "vacuity guard: a false claim under the same precondition must fail",
+                   kind="canary", engine="verus", timeout=600, extra=dict(spec="verus_edge", rlimit=60)))
     return us
